@@ -3,6 +3,12 @@
 //@ include prelude/header.rs
 verus! {
 //@ include prelude/error.rs
+/// `unreachable!` inside an extracted body is an obligation: it must be unreachable (requires false)
+#[verifier::external_body]
+pub fn must_not_panic() -> ! requires false { unimplemented!() }
+}
+macro_rules! unreachable { ($($t:tt)*) => { crate::must_not_panic() } }
+verus! {
 
 // ---------------- assumed environment of runtime/stack.rs (stand-ins; every contract here is trusted) ----------------
 impl Error {
@@ -45,7 +51,7 @@ impl From<Value> for ValueCow {
     #[verifier::external_body]
     fn from(v: Value) -> (r: ValueCow) ensures r.vid() == v.vid() { unimplemented!() }
 }
-pub trait ValueView { }
+pub trait ValueView { fn to_value(&self) -> Value; }
 
 /// set of root names (stand-in for BTreeSet<KStringCow>)
 #[verifier::external_body]
@@ -127,10 +133,27 @@ impl Default for Registers {
     #[verifier::external_body]
     fn default() -> (r: Registers) { unimplemented!() }
 }
+/// which RefCell a write lands in / an answer comes from: `cell_swap(c, n)` is what cell c hands back when name n is
+/// (re)bound in it - an uninterpreted tag, so that "the answer of the write is the answer of THAT cell" pins the target
+pub uninterp spec fn cell_swap(cell: int, name: Key) -> Option<Value>;
+pub uninterp spec fn cell_has(cell: int, name: Key) -> bool;
+#[verifier::external_body]
+pub struct ObjGuard { _p: u8 }
+impl ObjGuard {
+    pub uninterp spec fn cell(&self) -> int;
+    /// RefMut<Object>::insert (through DerefMut): rebinding in the borrowed cell
+    #[verifier::external_body]
+    pub fn insert(&mut self, name: KString, val: Value) -> (r: Option<Value>)
+        ensures r == cell_swap(old(self).cell(), name.view()), final(self).cell() == old(self).cell()
+    { unimplemented!() }
+}
 impl ObjectCell {
     pub uninterp spec fn now(&self) -> Object;
+    pub uninterp spec fn id(&self) -> int;
     #[verifier::external_body]
-    pub fn borrow(&self) -> (r: &Object) ensures *r == self.now() { unimplemented!() }
+    pub fn borrow(&self) -> (r: &Object) ensures *r == self.now(), forall|n: Key| #[trigger] r.dom().contains(n) == cell_has(self.id(), n) { unimplemented!() }
+    #[verifier::external_body]
+    pub fn borrow_mut(&self) -> (r: ObjGuard) ensures r.cell() == self.id() { unimplemented!() }
 }
 
 pub mod model {
@@ -174,9 +197,19 @@ pub trait Runtime {
         ensures
             r matches Ok(v) ==> self.lookup(path_keys(path@)) == Some(v.vid()),                   // [C18:get_agrees_with_try_get]
             r is Err ==> self.lookup(path_keys(path@)) is None;                                   // [C18:get_fails_iff_try_get_none]
-    fn set_global(&self, name: KString, val: Value) -> Option<Value>;
-    fn set_index(&self, name: KString, val: Value) -> Option<Value>;
-    fn get_index(&self, name: &str) -> Option<ValueCow>;
+    /// the RefCell of the nearest layer that captures global assignments / that holds the counters (None: there is none
+    /// below this layer - the base case of RuntimeCore, which `unreachable!`s)
+    spec fn global_cell(&self) -> Option<int>;
+    spec fn index_cell(&self) -> Option<int>;
+    fn set_global(&self, name: KString, val: Value) -> (r: Option<Value>)
+        requires self.global_cell() is Some,                                                      // [C18:set_global_needs_a_global_layer]
+        ensures r == cell_swap(self.global_cell()->0, name.view());                               // [C04:assignment_lands_in_the_nearest_global_layer]
+    fn set_index(&self, name: KString, val: Value) -> (r: Option<Value>)
+        requires self.index_cell() is Some,                                                       // [C18:set_index_needs_a_counter_layer]
+        ensures r == cell_swap(self.index_cell()->0, name.view());                                // [C04:counters_land_in_the_counter_layer]
+    fn get_index(&self, name: &str) -> (r: Option<ValueCow>)
+        ensures self.index_cell() matches Some(c) ==> (r is Some) == cell_has(c, name@),          // [C04:counters_are_read_from_the_counter_layer]
+                self.index_cell() is None ==> r is None;
     fn registers(&self) -> &Registers;
 }
 
@@ -206,6 +239,8 @@ impl<P: Runtime, O: ObjectView> Runtime for StackFrame<P, O> {
         layer_lookup(&self.data, self.parent.lookup(path), path)
     }
     open spec fn root_set(&self) -> Set<Key> { self.parent.root_set().union(self.data.dom()) }
+    open spec fn global_cell(&self) -> Option<int> { self.parent.global_cell() }
+    open spec fn index_cell(&self) -> Option<int> { self.parent.index_cell() }
 //@ item crates/core/src/runtime/stack.rs :: impl super::Runtime for StackFrame<P,O>::roots
 //@ props C18
 //@ sig fn roots(&self) -> (r: RootSet)
@@ -246,9 +281,12 @@ impl<P: Runtime> Runtime for GlobalFrame<P> {
         layer_lookup(&self.data.now(), self.parent.lookup(path), path)
     }
     open spec fn root_set(&self) -> Set<Key> { self.parent.root_set().union(self.data.now().dom()) }
-    /// writes through RefCell: NOT under contract (interior mutability has no sound two-state spec here, DESIGN C18)
-    #[verifier::external_body]
-    fn set_global(&self, name: KString, val: Value) -> (r: Option<Value>) { unimplemented!() }
+    open spec fn global_cell(&self) -> Option<int> { Some(self.data.id()) }
+    open spec fn index_cell(&self) -> Option<int> { self.parent.index_cell() }
+//@ item crates/core/src/runtime/stack.rs :: impl super::Runtime for GlobalFrame<P>::set_global
+//@ props C18 C04
+//@ sig fn set_global(&self, name: KString, val: Value) -> (r: Option<Value>)
+//@ end
 //@ item crates/core/src/runtime/stack.rs :: impl super::Runtime for GlobalFrame<P>::roots
 //@ props C18
 //@ sig fn roots(&self) -> (r: RootSet)
@@ -288,11 +326,18 @@ impl<P: Runtime> Runtime for IndexFrame<P> {
         layer_lookup(&self.data.now(), self.parent.lookup(path), path)
     }
     open spec fn root_set(&self) -> Set<Key> { self.parent.root_set().union(self.data.now().dom()) }
-    /// writes/reads of the counter cell: NOT under contract (see above)
-    #[verifier::external_body]
-    fn set_index(&self, name: KString, val: Value) -> (r: Option<Value>) { unimplemented!() }
-    #[verifier::external_body]
-    fn get_index(&self, name: &str) -> (r: Option<ValueCow>) { unimplemented!() }
+    open spec fn global_cell(&self) -> Option<int> { self.parent.global_cell() }
+    open spec fn index_cell(&self) -> Option<int> { Some(self.data.id()) }
+//@ item crates/core/src/runtime/stack.rs :: impl super::Runtime for IndexFrame<P>::set_index
+//@ props C18 C04
+//@ sig fn set_index(&self, name: KString, val: Value) -> (r: Option<Value>)
+//@ end
+//@ item crates/core/src/runtime/stack.rs :: impl super::Runtime for IndexFrame<P>::get_index
+//@ props C18 C04
+//@ sig fn get_index(&self, name: &str) -> (r: Option<ValueCow>)
+//@ closure 0 arg_of=map params=v
+|v: &dyn ValueView| -> (c: ValueCow)
+//@ end
 //@ item crates/core/src/runtime/stack.rs :: impl super::Runtime for IndexFrame<P>::roots
 //@ props C18
 //@ sig fn roots(&self) -> (r: RootSet)
@@ -329,6 +374,8 @@ impl<P: Runtime, O: ObjectView> Runtime for SandboxedStackFrame<P, O> {
         layer_lookup(&self.data, None, path)
     }
     open spec fn root_set(&self) -> Set<Key> { self.data.dom() }
+    open spec fn global_cell(&self) -> Option<int> { self.parent.global_cell() }
+    open spec fn index_cell(&self) -> Option<int> { self.parent.index_cell() }
 //@ item crates/core/src/runtime/stack.rs :: impl super::Runtime for SandboxedStackFrame<P,O>::roots
 //@ props C18
 //@ sig fn roots(&self) -> (r: RootSet)
@@ -433,6 +480,8 @@ impl Error {
 impl Runtime for RuntimeCore {
     open spec fn lookup(&self, path: Seq<Key>) -> Option<VId> { None }
     open spec fn root_set(&self) -> Set<Key> { Set::empty() }
+    open spec fn global_cell(&self) -> Option<int> { None }
+    open spec fn index_cell(&self) -> Option<int> { None }
 //@ item crates/core/src/runtime/runtime.rs :: impl Runtime for RuntimeCore<'_>::roots
 //@ props C18
 //@ sig fn roots(&self) -> (r: RootSet)
@@ -448,10 +497,16 @@ impl Runtime for RuntimeCore {
 //@ closure 0 arg_of=unwrap_or_else params=
 || -> (s: ScalarCow)
 //@ end
-    #[verifier::external_body]
-    fn set_global(&self, name: KString, val: Value) -> (r: Option<Value>) { unimplemented!() }
-    #[verifier::external_body]
-    fn set_index(&self, name: KString, val: Value) -> (r: Option<Value>) { unimplemented!() }
+//@ item crates/core/src/runtime/runtime.rs :: impl Runtime for RuntimeCore<'_>::set_global
+//@ props C18 C02
+//@ unreachable-by-contract the trait precondition (a global / counter layer exists below) is false for the core: the body `unreachable!` is proved unreachable
+//@ sig fn set_global(&self, _name: KString, _val: Value) -> (r: Option<Value>)
+//@ end
+//@ item crates/core/src/runtime/runtime.rs :: impl Runtime for RuntimeCore<'_>::set_index
+//@ props C18 C02
+//@ unreachable-by-contract the trait precondition (a global / counter layer exists below) is false for the core: the body `unreachable!` is proved unreachable
+//@ sig fn set_index(&self, _name: KString, _val: Value) -> (r: Option<Value>)
+//@ end
 //@ item crates/core/src/runtime/runtime.rs :: impl Runtime for RuntimeCore<'_>::get_index
 //@ props C18
 //@ sig fn get_index(&self, _name: &str) -> (r: Option<ValueCow>)
@@ -499,6 +554,8 @@ impl ObjectView for NullObject {
 impl<R: Runtime + ?Sized> Runtime for &R {
     open spec fn lookup(&self, path: Seq<Key>) -> Option<VId> { (**self).lookup(path) }
     open spec fn root_set(&self) -> Set<Key> { (**self).root_set() }
+    open spec fn global_cell(&self) -> Option<int> { (**self).global_cell() }
+    open spec fn index_cell(&self) -> Option<int> { (**self).index_cell() }
 //@ item crates/core/src/runtime/runtime.rs :: impl Runtime for &R::roots
 //@ props C18 C04
 //@ sig fn roots(&self) -> (r: RootSet)
@@ -546,6 +603,9 @@ impl<'g> RuntimeBuilder<'g> {
             None => None::<VId> }),                                                                  // [C04:fresh_runtime_sees_only_caller_data] [C18:build_layer_order]
         r.data.now().dom() == Set::<Key>::empty(), r.parent.parent.data.now().dom() == Set::<Key>::empty(),   // [C09:every_render_starts_from_an_empty_runtime]
         self.globals matches Some(g) ==> r.parent.data == g,
+        // the built runtime has a layer for assignments and one for counters: RuntimeCore's `unreachable!` base cases
+        // (proved unreachable under exactly this condition) are masked
+        r.global_cell() is Some, r.index_cell() is Some,                                          // [C18:builder_masks_the_unreachable_base_cases]
 //@ edit <<let partials = self.partials.unwrap_or(&NullPartials);>> => <<>> why: partial store plumbing is outside this unit
 //@ editre <<RuntimeCore \{\s*partials,\s*\.\.Default::default\(\)\s*\}>> => <<RuntimeCore::default()>> why: struct-update syntax over the partial store; the stand-in core has no partials field
 //@ edit <<self.globals.unwrap_or(&NullObject)>> => <<self.globals.unwrap_or(null_object())>> why: NullObject (an empty ObjectView) as a stand-in constructor
@@ -554,6 +614,19 @@ impl<'g> RuntimeBuilder<'g> {
 }
 
 // ---------------- consequences for plugin authors (lemmas over the layer definitions; C18, C04) ----------------
+/// every scope a tag can build on top of a runtime keeps its assignment and counter layers reachable: the four
+/// constructors preserve `global_cell is Some` / `index_cell is Some` (so set_global / set_index never reach the core)
+proof fn lemma_layers_preserve_write_targets<P: Runtime, O: ObjectView>(s: &StackFrame<P, O>, g: &GlobalFrame<P>, i: &IndexFrame<P>, b: &SandboxedStackFrame<P, O>)
+    ensures
+        s.parent.global_cell() is Some ==> s.global_cell() == s.parent.global_cell(),
+        s.parent.index_cell() is Some ==> s.index_cell() == s.parent.index_cell(),
+        g.global_cell() is Some,                                  // a global layer captures assignments itself
+        g.index_cell() == g.parent.index_cell(),
+        i.index_cell() is Some,
+        i.global_cell() == i.parent.global_cell(),
+        b.global_cell() == b.parent.global_cell(), b.index_cell() == b.parent.index_cell(),      // the sandbox hides names, not write targets
+{ }
+
 /// a scope answers for the names it defines ...
 proof fn lemma_scope_shadows<P: Runtime, O: ObjectView>(f: &StackFrame<P, O>, path: Seq<Key>)
     requires path.len() > 0, f.data.dom().contains(path[0]),
